@@ -4,6 +4,7 @@ import (
 	"fmt"
 	"go/token"
 	"strings"
+	"unicode"
 
 	"golang.org/x/tools/go/ssa"
 )
@@ -26,6 +27,11 @@ func init() {
 			checkIdentityMergeAllVerdict(c)
 			checkNewOnlyWhenRefAbsent(c)
 			checkActionsAtomic(c, eff)
+			// the merge commit written by a pull must be readable back: signed whenever the author has a key (shared with C08)
+			c.Doc("R8.5", "Write stores a signed commit iff Author.SigningKey is non-nil, with that key, whatever the pack holds")
+			checkSigningWrite(c)
+			// … and accepted by read: the refusals of read are the documented ones (merge commits exempt from the hop limit) (shared with C03)
+			checkReadGuards(c)
 		})
 	register("C09",
 		"Static shape of the identity history rules: (*Identity).Merge moves the ref only after appending, reports true exactly where it moved the ref, and never refuses after moving it; identity.MergeAll reports Updated/Nothing according to that result, validates before touching refs and keeps going after a refused identity; every store to Identity.versions is an append to the same field or the initialisation of a fresh Identity; Identity.Id reads version 0 only; Identity.Validate and version.Validate contain the documented refusals with the right polarity; identity.read refuses a ref whose name is not the first version's id.",
@@ -37,6 +43,8 @@ func init() {
 			checkIdentityMerge(c, eff)
 			checkVersionsAppendOnly(c)
 			checkIdentityValidate(c)
+			checkTextEmpty(c)
+			checkValidateBeforePersist(c)
 			checkIdentityReadIdGuard(c, "R9.5")
 			checkIdentityMergeComparesCommits(c)
 			checkFirstVersionFrozen(c)
@@ -393,6 +401,7 @@ func checkIdentityReadIdGuard(c *Ctx, rule string) {
 // checkCacheMergeFold: SubCache.MergeAll folds New/Updated results into cached, excerpts, index.
 func checkCacheMergeFold(c *Ctx, rule string) {
 	w := c.W
+	checkRepoCacheMergeAllTiers(c)
 	c.Doc(rule, "SubCache.MergeAll: for New/Updated results the entity of the result is stored in the loaded set, its excerpt stored, and it is indexed; the cache file is written afterwards; results are forwarded")
 	fn := w.Method("cache", "SubCache", "MergeAll")
 	if fn == nil {
@@ -487,4 +496,181 @@ func checkCacheMergeFold(c *Ctx, rule string) {
 	c.Check(indexes, rule, "SubCache.MergeAll:index", pos, "merged entities are (re)indexed", "merge results are stored in the excerpts but not indexed: a pulled bug is listed but not searchable until a rebuild")
 	c.Check(writes, rule, "SubCache.MergeAll:write", pos, "cache file rewritten", "cache file not rewritten after a merge")
 	_ = fmt.Sprint
+}
+
+// R9.9: what "no name" means. version.Validate refuses an identity whose name and login are both
+// text.Empty; Empty is documented as "empty once space and not graphic characters are removed".
+// A narrower trim set lets an identity made of invisible characters through: it validates, is
+// committed and merged, and shows as a blank author everywhere.
+func checkTextEmpty(c *Ctx) {
+	w := c.W
+	c.Doc("R9.9", "util/text.Empty returns strings.TrimFunc(s, p) == \"\" where the predicate p, tabulated from its SSA over U+0000–U+02FF and representatives of the other classes (format characters, separators, private use, non-characters), is true exactly for the runes that are space or not graphic")
+	fn := w.Func("util/text", "Empty")
+	if fn == nil {
+		c.Undecided("R9.9", "anchor:text.Empty", "util/text", "not found")
+		return
+	}
+	c.seeFn(funcName(fn))
+	pos := w.FnPos(fn)
+	var trim *ssa.Call
+	for _, cl := range Calls(fn) {
+		if cl.Name == "strings.TrimFunc" {
+			trim, _ = cl.Instr.(*ssa.Call)
+		}
+	}
+	if trim == nil {
+		c.Info("R9.9", "text.Empty:trims-invisible", pos, "Empty is not written with strings.TrimFunc: not interpreted")
+		return
+	}
+	// shape: return TrimFunc(<param>, pred) == ""
+	okShape := false
+	for _, r := range Returns(fn) {
+		if bo, ok := ReturnResult(r, 0).(*ssa.BinOp); ok && bo.Op == token.EQL {
+			for _, pr := range [][2]ssa.Value{{bo.X, bo.Y}, {bo.Y, bo.X}} {
+				if s, isS := constString(pr[1]); isS && s == "" && pr[0] == ssa.Value(trim) {
+					okShape = true
+				}
+			}
+		}
+	}
+	if _, isP := trim.Common().Args[0].(*ssa.Parameter); !isP {
+		okShape = false
+	}
+	c.Check(okShape, "R9.9", "text.Empty:shape", pos, "TrimFunc(s, p) == \"\"", "Empty does not answer whether its whole argument is trimmed away")
+	var pred *ssa.Function
+	for _, f := range funcValuesOf(trim.Common().Args[1], 0) {
+		pred = f
+	}
+	if pred == nil {
+		c.Info("R9.9", "text.Empty:trims-invisible", pos, "the trim predicate is not a function literal or named function: not interpreted")
+		return
+	}
+	ext := map[string]func(args []fval) (fval, error){}
+	for name, f := range map[string]func(rune) bool{"unicode.IsControl": unicode.IsControl, "unicode.IsPrint": unicode.IsPrint, "unicode.IsSpace": unicode.IsSpace, "unicode.IsGraphic": unicode.IsGraphic, "unicode.IsLetter": unicode.IsLetter, "unicode.IsDigit": unicode.IsDigit, "unicode.IsMark": unicode.IsMark, "unicode.IsPunct": unicode.IsPunct, "unicode.IsSymbol": unicode.IsSymbol, "unicode.IsNumber": unicode.IsNumber} {
+		f := f
+		ext[name] = func(a []fval) (fval, error) {
+			if len(a) != 1 || a[0].k != fInt {
+				return fval{}, fmt.Errorf("unexpected arguments")
+			}
+			return fval{k: fBool, b: f(rune(a[0].i))}, nil
+		}
+	}
+	var runes []rune
+	for r := rune(0); r <= 0x2FF; r++ {
+		runes = append(runes, r)
+	}
+	runes = append(runes, 0x034F, 0x061C, 0x115F, 0x1680, 0x180E, 0x2000, 0x200A, 0x200B, 0x200C, 0x200D, 0x200E, 0x200F, 0x2028, 0x2029, 0x202A, 0x202E, 0x202F, 0x205F, 0x2060, 0x2064, 0x3000, 0x3164, 0xD7FF, 0xE000, 0xFE00, 0xFEFF, 0xFFA0, 0xFFF9, 0xFFFD, 0xFFFE, 0x1F600, 0xE0001, 0xE0100, 0x10FFFF)
+	bad := ""
+	for _, r := range runes {
+		c.Sites++
+		var got bool
+		if e, isExt := ext[pred.String()]; isExt {
+			v, _ := e([]fval{{k: fInt, i: int64(r)}})
+			got = v.b
+		} else {
+			env := &fenv{concrete: true, extern: ext, cells: map[int]*fval{}}
+			rs, err := env.run(pred, []fval{{k: fInt, i: int64(r)}}, 0)
+			if err != nil || len(rs) != 1 {
+				c.Info("R9.9", "text.Empty:trims-invisible", pos, fmt.Sprintf("the trim predicate is not interpretable: %v", err))
+				return
+			}
+			got = rs[0].b
+		}
+		want := unicode.IsSpace(r) || !unicode.IsGraphic(r)
+		if got != want && bad == "" {
+			if want {
+				bad = fmt.Sprintf("U+%04X (not graphic or space) is not trimmed: a name made of such characters only counts as a name", r)
+			} else {
+				bad = fmt.Sprintf("U+%04X (a visible character) is trimmed: a name made of it counts as no name", r)
+			}
+		}
+	}
+	c.Check(bad == "", "R9.9", "text.Empty:trims-invisible", pos, fmt.Sprintf("%d runes: trimmed iff space or not graphic", len(runes)), bad)
+}
+
+// checkRepoCacheMergeAllTiers: what a pull merges. RepoCache.MergeAll runs the sub-caches' MergeAll tier by
+// tier (identities, then what depends on them) and relays every result. Whatever one tier reports, the
+// next one runs: an identity that cannot be fast-forwarded is an ordinary, permanent condition.
+func checkRepoCacheMergeAllTiers(c *Ctx) {
+	w := c.W
+	c.Doc("R2.10", "RepoCache.MergeAll: the tiers hold the identities and the bugs sub-cache; the loops over tiers, over the sub-caches of a tier and over a sub-cache's results end by exhaustion only (no result makes a later tier or a later result be skipped); every result received is sent on unconditionally")
+	fn := w.Method("cache", "RepoCache", "MergeAll")
+	if fn == nil {
+		c.Undecided("R2.10", "anchor:RepoCache.MergeAll", "cache", "not found")
+		return
+	}
+	c.seeFn(funcName(fn))
+	pos := w.FnPos(fn)
+	var all []*ssa.Function
+	var collect func(f *ssa.Function)
+	collect = func(f *ssa.Function) {
+		all = append(all, f)
+		for _, an := range f.AnonFuncs {
+			collect(an)
+		}
+	}
+	collect(fn)
+	loops, bad := 0, ""
+	relayed := false
+	fields := map[string]bool{}
+	for _, f := range all {
+		for _, b := range f.Blocks {
+			for _, ins := range b.Instrs {
+				if fa, ok := ins.(*ssa.FieldAddr); ok {
+					fields[fieldName(fa)] = true
+				}
+				if sd, ok := ins.(*ssa.Send); ok {
+					// the value sent is what was received from a sub-cache's MergeAll
+					recv := false
+					for _, o := range origins(sd.X) {
+						if o.Kind == "unop" {
+							if u, isU := o.Val.(*ssa.UnOp); isU && u.Op == token.ARROW {
+								if hasOriginCall(u.X, "cache.cacheMgmt.MergeAll", -1) != nil {
+									recv = true
+								}
+							}
+						}
+					}
+					if ex, isEx := sd.X.(*ssa.Extract); isEx && ex.Index == 0 {
+						if u, isU := ex.Tuple.(*ssa.UnOp); isU && u.Op == token.ARROW && hasOriginCall(u.X, "cache.cacheMgmt.MergeAll", -1) != nil {
+							recv = true
+						}
+					}
+					if recv {
+						c.Sites++
+						if unconditionalInLoop(w, sd) == "" {
+							relayed = true
+						} else {
+							bad = "a merge result is relayed only under a condition (" + w.InstrPos(sd) + ")"
+						}
+					}
+				}
+			}
+			if !isLoopHeader(b) {
+				continue
+			}
+			loops++
+			for _, x := range f.Blocks {
+				if x == b || !inLoop(x, b) {
+					continue
+				}
+				for _, s := range x.Succs {
+					if !inLoop(s, b) {
+						if oh := outermostLoopHeader(x); oh != nil && oh != b && inLoop(s, oh) {
+							continue
+						}
+						bad = "the loop at " + w.InstrPos(firstPosInstr(b)) + " is left at " + w.InstrPos(firstPosInstr(s)) + " before it is exhausted: the remaining tiers (the bugs, after a refused identity) or results are never merged, however often the user pulls"
+					}
+				}
+			}
+		}
+		// a return inside a loop body that is not reached through loop exhaustion
+		for _, r := range Returns(f) {
+			if h := enclosingLoopHeader(r.Block()); h != nil {
+				bad = "return inside the loop at " + w.InstrPos(firstPosInstr(h))
+			}
+		}
+	}
+	c.Check(fields["identities"] && fields["bugs"], "R2.10", "RepoCache.MergeAll:tiers", pos, "identities and bugs are merged", "the identities or the bugs sub-cache is not part of what MergeAll merges")
+	c.Check(loops >= 3 && bad == "" && relayed, "R2.10", "RepoCache.MergeAll:every-tier-every-result", pos, fmt.Sprintf("%d loops left by exhaustion only; every result relayed", loops), bad)
 }
